@@ -2108,9 +2108,9 @@ fn main() {
             emit("tree_walker", tree_walker_shape(&src), &mut out);
             emit("try_reflink", try_reflink(&src), &mut out);
             emit("CopyHandle::new", call_order(&src, "new", "x_copy_new_steps",
-                &[("File::open", 20), ("metadata", 21), ("try_exists", 22), ("is_same_file", 23), ("symlink_metadata", 26), ("lock", 27), ("drop", 28), ("needs_backup", 24), ("get_backup_path", 25),
+                &[("File::open", 20), ("metadata", 21), ("try_exists", 22), ("is_same_file", 23), ("symlink_metadata", 26), ("is_dir", 29), ("lock", 27), ("drop", 28), ("needs_backup", 24), ("get_backup_path", 25),
                   ("fs::rename", 1), ("File::create", 2), ("allocate_file", 3)],
-                "the steps of CopyHandle::new in evaluation order (20 open source, 21 fstat, 22 probe destination, 23 same-file check, 26 lstat of a destination the probe called absent (a dangling link is refused), 27 take / 28 release the backup-step lock (97 = its poison handler), 24/25 backup decision and name, 1 rename, 2 create+truncate, 3 size; 99 = any other call, 98 = return)"), &mut out);
+                "the steps of CopyHandle::new in evaluation order (20 open source, 21 fstat, 22 probe destination, 23 same-file check, 26 lstat of a destination the probe called absent (a dangling link is refused), 29 is that entry a directory (a file never replaces one), 27 take / 28 release the backup-step lock (97 = its poison handler), 24/25 backup decision and name, 1 rename, 2 create+truncate, 3 size; 99 = any other call, 98 = return)"), &mut out);
             emit("copy_file", call_order(&src, "copy_file", "x_copy_file_steps",
                 &[("try_reflink", 4), ("probably_sparse", 30), ("copy_sparse", 31), ("copy_bytes", 32)],
                 "the steps of CopyHandle::copy_file (4 clone attempt, 30 sparseness test, 31 sparse walk, 32 plain loop)"), &mut out);
